@@ -39,9 +39,10 @@ flush_exception_wr_will_close_{sfx}:
         while ({outlen} > 0) {{
 send_send_sock_{sfx}:
           if (sfaults # <<>> /\\ Head(sfaults) = "hard") {{
-            sfaults := Tail(sfaults);
+            sfaults := Tail(sfaults); skerr := TRUE;
             """ + hard + """
           }} else if ((sfaults # <<>> /\\ Head(sfaults) = "disc") \\/ peerGone) {{
+            skerr := skerr \\/ (sfaults # <<>> /\\ Head(sfaults) = "disc");
             sfaults := IF sfaults # <<>> THEN Tail(sfaults) ELSE sfaults;
             """ + disc + """
           }} else {{
@@ -215,6 +216,7 @@ variables
   backlog = FALSE, inbox = <<>>, room = cfg.room, wire = <<>>, nclose = 0, blocked = 0,
   peerGone = FALSE,            \* the client has gone away: sends fail with EPIPE, recv reports end of file
   sfaults = cfg.sfaults, rfaults = cfg.rfaults,
+  skerr = FALSE,               \* a send has failed: the socket is reported ready from then on
   (* ---- history (not read by the modelled code) ---- *)
   produced = <<>>, started = <<>>, running = 0, decided = FALSE, execAfterDecision = FALSE, tornBy = <<>>, crashed = {},
   maxTotal = 0;
@@ -230,7 +232,7 @@ define {
   RECURSIVE Concat(_, _)
   Concat(seq, i) == IF i > Len(seq) THEN <<>> ELSE RespOf(seq[i].rid) \o Concat(seq, i + 1)
   \* (a scripted outcome pending for the next send makes the socket report writable, like a spurious readiness)
-  CanSend == room = Unlimited \/ room > 0 \/ peerGone \/ sfaults # <<>>
+  CanSend == room = Unlimited \/ room > 0 \/ peerGone \/ sfaults # <<>> \/ skerr
   SockReadable == inbox # <<>> \/ peerGone \/ rfaults # <<>>
   (* C04: what reaches the client is what was produced, in that order, nothing twice, nothing dropped in between *)
   WireIsPrefix == IsBytePrefix(wire, produced)
